@@ -121,6 +121,8 @@ def run(cx):
     cx.rule("C12.R7", "K3", "a reload loses nothing: every cell of the live Task / Process that can change while the process runs is part of the stored row (shared with C11.R4)")
     from rules.c11 import r4_no_memory_only_cells
     r4_no_memory_only_cells(cx, "C12.R7")
+    cx.rule("C12.R8", "E3", "the order in which a task's children are visited is a function of stored data (sorted by the stored creation stamp): it is the same after a reload, whatever order the store returns the rows in")
+    r8_children_order(cx)
 
 
 def r6(cx, rule="C12.R6", only=None, floor=12):
@@ -341,3 +343,71 @@ def r5(cx):
     pm = m.one(r"^%s::model$" % PROC)
     cx.ob("C12.R5", "model-snapshot:stored", ok, "the process row stores `self.model().to_json()`, i.e. the tree's snapshot", g.loc())
     cx.floor("C12.R5", 2)
+
+
+def r8_children_order(cx):
+    """Process::children(tid) feeds every next / review / siblings / abort walk; Step::review wakes pending branches one at a
+    time in that order. The rows of a reloaded process arrive in store order (the memory store: by `pid:tid`, tids are random),
+    so the order must be re-derived from a stored field: the result is sorted, by `timestamp`, before it is returned."""
+    m = cx.m
+    pa = Prov(m, "alias")
+    f = m.one(r"^acts::scheduler::process::process::Process::children$")
+    sorts = [c for c in f.calls() if re.search(r"slice::<impl \[T\]>::sort(_unstable)?_by(_key|_cached_key)?(::<.*>)?$", c.q)]
+    ok = False
+    why = "no sort of the result found"
+    for c in sorts:
+        cl = None
+        for a in c.args[1:]:
+            r = pa.root(f, a)
+            if r[0] == "closure" and r[1] in m.fns:
+                cl = m.fns[r[1]]
+        if cl is None:
+            continue
+        # the comparator reads the field `timestamp` of both elements and nothing else
+        flds = set()
+        for bi, b in enumerate(cl.blocks):
+            t = b["t"]
+            if t[0] == "call":
+                for a in t[2]:
+                    if a[0] == "k":
+                        continue
+                    r = pa.root(cl, a)
+                    if r[0] == "param" and r[3]:
+                        flds |= {x for x in r[3] if x not in ("*",) and not x.startswith("@") and not x.isdigit()}
+        # what is sorted is what is returned
+        sorted_root = pa.root(f, c.args[0])
+        ret_is_sorted = any(s_[0] == "A" and s_[1][0] == 0 and not s_[1][1] and s_[2][0] == "use" and s_[2][1][0] != "k"
+                            and _same_local(f, pa, s_[2][1], c.args[0]) for b in f.blocks for s_ in b["s"])
+        if flds and flds <= {"timestamp"} and ret_is_sorted:
+            ok = True
+        else:
+            why = "sorted by %s, returned value is the sorted vector: %s" % (sorted(flds) or "?", ret_is_sorted)
+    cx.ob("C12.R8", "children:sorted-by-stored-stamp", ok,
+          "Process::children returns the children sorted by their stored `timestamp`%s" % (
+              "" if ok else " - it does not (%s): the order then depends on how the tasks got into memory (push order / store row order), and a reloaded process wakes and visits siblings in another order than the one that was never interrupted" % why), f.loc())
+    cx.floor("C12.R8", 1)
+
+
+def _same_local(f, pa, op_a, op_b):
+    """do the two operands denote the same local (through refs / derefs)?"""
+    def base(op):
+        if op[0] == "k":
+            return None
+        loc, proj = op[1]
+        for _ in range(6):
+            ds = [d for d in f.defs().get(loc, []) if d[2] in ("assign", "call")]
+            if len(ds) == 1 and ds[0][2] == "assign" and ds[0][3][0] in ("ref", "addr"):
+                loc = ds[0][3][1][0]
+                continue
+            if len(ds) == 1 and ds[0][2] == "assign" and ds[0][3][0] == "use" and ds[0][3][1][0] != "k":
+                loc = ds[0][3][1][1][0]
+                continue
+            if len(ds) == 1 and ds[0][2] == "call" and (ds[0][3][1].get("decl") or "") in ("std::ops::Deref::deref", "std::ops::DerefMut::deref_mut") and ds[0][3][2]:
+                a0 = ds[0][3][2][0]
+                if a0[0] != "k":
+                    loc = a0[1][0]
+                    continue
+            break
+        return loc
+    a, b = base(op_a), base(op_b)
+    return a is not None and a == b
